@@ -30,6 +30,7 @@ def run(ctx):
     thresholds(ctx, prog, A)
     stale_head(ctx, prog, A)
     predicates(ctx, prog, A)
+    reader_announces_eof(ctx, prog, A)
 
 
 # ------------------------------------------------------------------ (a)
@@ -602,6 +603,20 @@ def stale_head(ctx, prog, A):
                 spec = True
     ctx.ob('C11.stale_head', 'speculative origin: do_scan stamps retrieve jobs with scanner positions', f.loc(), spec,
            'rb->base = bs->pos')
+
+
+def reader_announces_eof(ctx, prog, A):
+    """every way the reader thread ends -- end of file, or the early close requested by the decompressor -- sets
+    `eof` under the scheduler lock: both can_terminate() predicates wait for it"""
+    f = prog.func('process', 'source_thread_proc')
+    P = A.cg.prov(f)
+    st = [i for i in f.insns() if i.op == 'store' and addr_key(P.addr(i.ops[1])) == 'G:eof' and
+          strip_casts(P.expr(i.ops[0])) == ('const', 1)]
+    rets = [b.name for b in f.blocks.values() if b.term.op == 'ret']
+    dom = cfg.dominators(f)
+    ok = bool(st) and bool(rets) and all(any(i.block.name in dom[r] for i in st) for r in rets)
+    ctx.ob('C11.wake', 'the reader thread sets eof on every path by which it ends (termination of either scheduler '
+           'waits for it)', f.loc(st[0]) if st else f.loc(), ok, 'stores at %s, returns from %s' % ([i.line for i in st], rets))
 
 
 # ------------------------------------------------------------------ (e') ready predicates, tabulated
